@@ -22,9 +22,9 @@ import time
 
 VERIF = os.path.dirname(os.path.dirname(os.path.abspath(__file__)))
 REPO = os.environ.get("VERIF_REPO", "/repo")
-BUILD = os.path.join(VERIF, ".build")
+BUILD = os.environ.get("VERIF_BUILD", os.path.join(VERIF, ".build"))
 COQ = os.path.join(VERIF, "coq")
-BIN = os.path.join(VERIF, "bin")
+BIN = os.path.join(VERIF, "bin") if "VERIF_BUILD" not in os.environ else os.path.join(BUILD, "bin")
 GUARD = "XERCES_VERIF_HOOKS"
 NPROC = os.cpu_count() or 4
 
@@ -91,7 +91,16 @@ def lib_so(variant="lib"):
 
 
 def build_lib(variant="lib", log=None):
-    """(re)build libxerces-c from /repo's current working tree with the hooks guard on."""
+    """(re)build libxerces-c from /repo's current working tree with the hooks guard on.
+    Serialised by a file lock so that concurrently running checks do not run two ninjas in one directory."""
+    import fcntl
+    os.makedirs(BUILD, exist_ok=True)
+    with open(os.path.join(BUILD, "." + variant + ".lock"), "w") as lk:
+        fcntl.flock(lk, fcntl.LOCK_EX)
+        return _build_lib(variant, log)
+
+
+def _build_lib(variant, log):
     d = lib_dir(variant)
     cenv, cxx, ld, bt = VARIANTS[variant]
     t0 = time.time()
@@ -165,14 +174,26 @@ def write_if_changed(path, content):
     return True
 
 
-def coq_project():
-    """(re)generate coq/_CoqProject and the Makefile from the files present"""
-    files = sorted(glob.glob(os.path.join(COQ, "theories", "**", "*.v"), recursive=True))
+def coq_project(dirs=None, tag="all"):
+    """(re)generate coq/_CoqProject.<tag> and Makefile.<tag> listing the .v files of the given theory
+    sub-directories (all of them when dirs is None).  One Makefile per property keeps concurrently running
+    checks from rewriting each other's dependency files."""
+    if dirs is None:
+        files = sorted(glob.glob(os.path.join(COQ, "theories", "**", "*.v"), recursive=True))
+    else:
+        files = []
+        for d in dirs:
+            files += sorted(glob.glob(os.path.join(COQ, "theories", d, "*.v")))
     rel = [os.path.relpath(f, COQ) for f in files]
     txt = "-Q theories XV\n-arg -w -arg -all\n" + "\n".join(rel) + "\n"
-    changed = write_if_changed(os.path.join(COQ, "_CoqProject"), txt)
-    if changed or not os.path.exists(os.path.join(COQ, "Makefile")):
-        sh("coq_makefile -f _CoqProject -o Makefile", cwd=COQ, check=True)
+    proj = "_CoqProject." + tag
+    mk = "Makefile." + tag
+    changed = write_if_changed(os.path.join(COQ, proj), txt)
+    if changed or not os.path.exists(os.path.join(COQ, mk)):
+        sh("coq_makefile -f %s -o %s" % (proj, mk), cwd=COQ, check=True)
+    if tag == "all":
+        write_if_changed(os.path.join(COQ, "_CoqProject"), txt)
+    return mk
 
 
 def grep_gate(dirs):
@@ -214,12 +235,12 @@ def strip_coq_comments(txt):
     return "".join(out)
 
 
-def coq_make(targets, timeout=1500, log=None):
+def coq_make(targets, timeout=1500, log=None, dirs=None, tag="all"):
     """full .vo build of the given targets (paths relative to coq/), -k so independent files survive.
     returns (ok:bool, output)"""
-    coq_project()
+    mk = coq_project(dirs, tag)
     t0 = time.time()
-    rc, out = sh("timeout %d make -k -j%d %s 2>&1" % (timeout, NPROC, " ".join(targets)), cwd=COQ,
+    rc, out = sh("timeout %d make -f %s -k -j%d %s 2>&1" % (timeout, mk, NPROC, " ".join(targets)), cwd=COQ,
                  timeout=timeout + 30)
     if log is not None:
         log.append("coq_make %s rc=%d %.1fs" % (" ".join(targets), rc, time.time() - t0))
@@ -292,11 +313,15 @@ def build_ocaml(name, modules, driver="driver.ml", log=None):
 # known findings
 # ------------------------------------------------------------------------------------------------
 def load_known_findings(prop):
-    p = os.path.join(VERIF, "known-findings.json")
-    if not os.path.exists(p):
-        return []
-    data = json.load(open(p))
-    return [f for f in data.get("findings", []) if f.get("property") == prop and f.get("status") == "known"]
+    """known-findings.json plus known-findings.d/*.json (one file per property; same format)"""
+    out = []
+    paths = [os.path.join(VERIF, "known-findings.json")] + sorted(glob.glob(os.path.join(VERIF, "known-findings.d", "*.json")))
+    for p in paths:
+        if not os.path.exists(p):
+            continue
+        data = json.load(open(p))
+        out += [f for f in data.get("findings", []) if f.get("property") == prop and f.get("status") == "known"]
+    return out
 
 
 # ------------------------------------------------------------------------------------------------
@@ -390,7 +415,7 @@ class Ctx:
         if bad:
             self.note("grep gate: forbidden vernacular: %s" % bad)
             self.violation("grep-gate", {"what": "forbidden vernacular in development", "hits": bad}, no_input=True)
-        ok, out = coq_make(targets, timeout=timeout, log=self.log)
+        ok, out = coq_make(targets, timeout=timeout, log=self.log, dirs=dirs, tag=self.prop)
         names = []
         if props_file:
             names = count_theorems(os.path.join(COQ, props_file))
@@ -414,15 +439,15 @@ class Ctx:
                 # force a recompile of the properties file to obtain the assumptions
                 if os.path.exists(vo):
                     os.remove(vo)
-                ok2, out2 = coq_make([props_file[:-2] + ".vo"], timeout=timeout, log=self.log)
+                ok2, out2 = coq_make([props_file[:-2] + ".vo"], timeout=timeout, log=self.log, dirs=dirs, tag=self.prop)
                 closed, axioms = parse_assumptions(out2)
                 json.dump({"closed": closed, "axioms": sorted(axioms)}, open(cache, "w"))
         extra_ax = {a for a in axioms if a.split(".")[-1] not in {x.split(".")[-1] for x in ALLOWED_AXIOMS}}
         if extra_ax:
             self.violation("axioms", {"what": "theorem depends on axioms outside the allowed list",
                                       "axioms": sorted(extra_ax)}, no_input=True)
-        self.coverage["checker_cmd"] = "cd coq && coq_makefile -f _CoqProject -o Makefile && make -k -j%d %s" % (
-            NPROC, " ".join(targets))
+        self.coverage["checker_cmd"] = ("cd coq && coq_makefile -f _CoqProject.%s -o Makefile.%s && make -f Makefile.%s "
+                                        "-k -j%d %s" % (self.prop, self.prop, self.prop, NPROC, " ".join(targets)))
         self.coverage.setdefault("print_assumptions", {})
         self.coverage["print_assumptions"] = {"closed_under_global_context": closed, "axioms": sorted(axioms)}
         self.coverage["theorems"] = names
